@@ -121,6 +121,66 @@ fn run_case(ctx: &Ctx, s: &Shape, st: &Stats) {
             ctx.violation(sig("decode"), format!("{:?}: decoder fed all source packets returned {:?} (len, first differing byte) instead of the {}-byte object", s, d, s.F), case());
         }
     }
+    // the decoder must invert the same layout when source symbols have to be rebuilt from repair
+    // symbols: (i) packet by packet with little overhead, (ii) block level in one batch with a large
+    // overhead (the decoder's GF(2)-only path), for configurations with sub-blocks in particular
+    {
+        let mut rng = Rng::new(s.hash());
+        let ks = s.block_ks();
+        let r = guarded(|| {
+            let cfg = s.cfg();
+            let enc = Encoder::new(&data, cfg);
+            let mut dec = Decoder::new(cfg);
+            let mut out = None;
+            let mut lost_any = false;
+            for (z, be) in enc.get_block_encoders().iter().enumerate() {
+                let lose = rng.below(ks[z] as u64) as usize;
+                for (i, p) in be.source_packets().into_iter().enumerate() {
+                    if i == lose {
+                        lost_any = true;
+                        continue;
+                    }
+                    if out.is_none() {
+                        out = dec.decode(p);
+                    }
+                }
+                for p in be.repair_packets(rng.below(1000) as u32, 4) {
+                    if out.is_none() {
+                        out = dec.decode(p);
+                    }
+                }
+            }
+            // block level, one batch: all but one source symbol + 24 repair symbols
+            let z = rng.below(s.Z as u64) as usize;
+            let be = &enc.get_block_encoders()[z];
+            let lose = rng.below(ks[z] as u64) as usize;
+            let mut pk: Vec<_> = be.source_packets().into_iter().enumerate().filter(|(i, _)| *i != lose).map(|(_, p)| p).collect();
+            pk.extend(be.repair_packets(rng.below(100000) as u32, 24));
+            let mut bd = raptorq::SourceBlockDecoder::new(z as u8, &cfg, (ks[z] * s.T) as u64);
+            let blk = bd.decode(pk);
+            (out, lost_any, z, blk)
+        });
+        match r {
+            Err(m) => ctx.violation(sig("repair-decode-panic"), format!("{:?}: decoding with lost source packets panicked: {}", s, short(&m, 120)), case()),
+            Ok((out, _lost, z, blk)) => {
+                if let Some(v) = out {
+                    if v != data {
+                        ctx.violation(sig("repair-decode"), format!("{:?}: decoder given all but one source packet per block plus repair packets returned {} bytes differing from the object at {:?}", s, v.len(), first_diff(&v, &data)), case());
+                    }
+                }
+                // 4 repair symbols for one lost symbol can (rarely) be rank deficient: None is not an error here
+                match blk {
+                    Some(v) => {
+                        let want = block_bytes(&data, s, z);
+                        if v != want {
+                            ctx.violation(sig("batch-repair-decode"), format!("{:?}: block {z} decoded in one batch (K-1 source + 24 repair symbols) differs from the block's bytes at {:?}", s, first_diff(&v, &want)), case());
+                        }
+                    }
+                    None => ctx.violation(sig("batch-repair-decode-none"), format!("{:?}: block {z}: K-1 source + 24 repair symbols in one batch were not decoded", s), case()),
+                }
+            }
+        }
+    }
     if s.nontrivial() {
         ctx.nontrivial(s.hash());
     }
